@@ -116,6 +116,17 @@ def _run(mod, a, t0):
             if not proofs_ok:
                 print("VIOLATION property=%s replay=%s no-failing-input-found" % (prop, a.replay))
             return 0 if proofs_ok else 1
+        if hasattr(mod, "replay_override"):
+            ov = mod.replay_override(rp["input"])
+            if ov is not None:
+                bad, seen, says = ov
+                print("replay: implementation now shows %s" % json.dumps(seen, default=str)[:2000])
+                print("replay: model says %s" % str(says)[:2000])
+                if bad:
+                    print("VIOLATION property=%s replay=%s" % (prop, a.replay))
+                else:
+                    print("replay: model and implementation agree on this input now")
+                return 1 if bad else 0
         c = mod.rerun(rp["input"])
         bad = vlib.run_cases(prop, mod.HEADER, mod.CASE_TYPE, mod.CHECK, [c.term], tag="replay")
         print("replay: implementation now shows %s" % json.dumps(c.seen, default=str)[:2000])
